@@ -336,6 +336,17 @@ func scnReify(rep *Report, rng *Rng, tier string, outdir string) {
 	add(ufsData(5, []byte{0x03}, true, nil, nil, u(0x22), u(8)), true, "shard-ok")
 	add(ufsData(5, []byte{0x03}, true, nil, nil, u(0x22), u(256)), true, "shard-256")
 	add(ufsData(5, []byte{1, 2}, true, nil, nil, u(0x22), u(8)), true, "shard-bitfield-too-long")
+	for _, fan := range []uint64{8, 16, 256, 1024} {
+		exact := make([]byte, fan/8)
+		exact[len(exact)-1] = 1
+		add(ufsData(5, exact, true, nil, nil, u(0x22), u(fan)), true, fmt.Sprintf("shard-%d-exact-bitfield", fan))
+		add(ufsData(5, exact[1:], true, nil, nil, u(0x22), u(fan)), true, fmt.Sprintf("shard-%d-short-bitfield", fan))
+		// wider than the fanout although only by zero bytes in front: an invalid shard all the same
+		add(ufsData(5, append([]byte{0}, exact...), true, nil, nil, u(0x22), u(fan)), true, fmt.Sprintf("shard-%d-bitfield-zero-padded-1", fan))
+		add(ufsData(5, append([]byte{0, 0, 0}, exact...), true, nil, nil, u(0x22), u(fan)), true, fmt.Sprintf("shard-%d-bitfield-zero-padded-3", fan))
+		add(ufsData(5, make([]byte, fan/8+1), true, nil, nil, u(0x22), u(fan)), true, fmt.Sprintf("shard-%d-bitfield-all-zero-long", fan))
+		add(ufsData(5, append([]byte{1}, exact...), true, nil, nil, u(0x22), u(fan)), true, fmt.Sprintf("shard-%d-bitfield-too-long", fan))
+	}
 	add(ufsData(5, []byte{0x03}, true, nil, nil, u(0x22), u(12)), true, "shard-fanout-not-pow2")
 	add(ufsData(5, []byte{0x03}, true, nil, nil, u(0x22), u(4)), true, "shard-fanout-4")
 	add(ufsData(5, []byte{0x03}, true, nil, nil, u(0x22), u(2048)), true, "shard-fanout-too-big")
